@@ -17,6 +17,14 @@ use crate::sem;
 pub const READ_FAULT: io::ErrorKind = io::ErrorKind::ConnectionReset;
 pub const WRITE_FAULT: io::ErrorKind = io::ErrorKind::BrokenPipe;
 pub const CLOSURE_FAULT: io::ErrorKind = io::ErrorKind::PermissionDenied;
+/// Error kinds injected into the reader (chosen by fault position).
+pub const READ_KINDS: [io::ErrorKind; 5] = [
+    READ_FAULT,
+    io::ErrorKind::Interrupted,
+    io::ErrorKind::UnexpectedEof,
+    io::ErrorKind::WouldBlock,
+    io::ErrorKind::Other,
+];
 
 /// A reader that follows a schedule: read sizes (cycled), mandatory cut
 /// offsets (a read never crosses one), and an optional injected failure at
@@ -28,13 +36,18 @@ pub struct SchedReader<'a> {
     cuts: &'a [usize],
     pub calls: usize,
     fail_at: Option<usize>,
+    fail_kind: io::ErrorKind,
     pub boundaries: Vec<usize>,
     pub eof_returned: bool,
 }
 
 impl<'a> SchedReader<'a> {
     pub fn new(data: &'a [u8], sizes: &'a [usize], cuts: &'a [usize], fail_at: Option<usize>) -> SchedReader<'a> {
-        SchedReader { data, pos: 0, sizes, cuts, calls: 0, fail_at, boundaries: Vec::new(), eof_returned: false }
+        SchedReader { data, pos: 0, sizes, cuts, calls: 0, fail_at, fail_kind: READ_FAULT, boundaries: Vec::new(), eof_returned: false }
+    }
+    pub fn with_kind(mut self, kind: io::ErrorKind) -> SchedReader<'a> {
+        self.fail_kind = kind;
+        self
     }
 }
 
@@ -42,7 +55,7 @@ impl<'a> Read for SchedReader<'a> {
     fn read(&mut self, buf: &mut [u8]) -> io::Result<usize> {
         self.calls += 1;
         if self.fail_at == Some(self.calls) {
-            return Err(io::Error::new(READ_FAULT, "injected read fault"));
+            return Err(io::Error::new(self.fail_kind, "injected read fault"));
         }
         let remaining = self.data.len() - self.pos;
         let mut n = remaining.min(buf.len());
@@ -145,9 +158,13 @@ pub struct StreamRun {
 
 /// Run stream_find_iter, stopping at the first error item.
 pub fn run_stream_find(s: &Searcher, case: &Case, fail_at: Option<usize>) -> Result<StreamRun, String> {
+    run_stream_find_kind(s, case, fail_at, READ_FAULT)
+}
+
+pub fn run_stream_find_kind(s: &Searcher, case: &Case, fail_at: Option<usize>, kind: io::ErrorKind) -> Result<StreamRun, String> {
     let cuts = cuts_of(case);
     let _g = SpareGuard::set(case.spare);
-    let mut rdr = SchedReader::new(&case.haystack, &case.reads, &cuts, fail_at);
+    let mut rdr = SchedReader::new(&case.haystack, &case.reads, &cuts, fail_at).with_kind(kind);
     let r = guard(|| -> Result<Vec<Result<M, io::ErrorKind>>, String> {
         let mut items = Vec::new();
         macro_rules! drive {
@@ -364,6 +381,7 @@ pub const C07: PropDef = PropDef {
     rule: "standard-kind searchers (all 7 engines, prefilter on/off, case-insensitive mix) over non-empty pattern lists; streams of 0..400 bytes (thorough 4K) built from planted/partial patterns; \
 a generated read schedule: cycled read sizes from {1, 2, 3..9, 10..40, 41..300, 'fill the whole free buffer'} plus cut offsets derived from the expected matches (reads ending at start/end -1/0/+1 of a match and strictly inside it); \
 internal buffer capacity = longest pattern + spare with spare in {1,2,3,7,16,64} via the cfg(aho_corasick_verif) hook, or the default 64 KiB; about 1.5% of the cases are streams of 64 KiB + up to 3 KB with a match straddling offset 65536, searched at the default capacity. \
+Deterministic long-pattern scenarios (enumerated): one pattern a^(L-1)b with L in {8191, 8192, 8193, 65535, 65536, 65537, 1 MiB + 4097 (thorough also 2 MiB + 17)} - the boundaries of the default capacity max(8*longest, 64 KiB) - in a stream whose occurrences straddle the capacity boundaries, default capacity, expected matches known by construction. \
 Oracle: items of stream_find_iter (all Ok) == reference model iterator on the concatenation == in-memory find_iter, absolute offsets; the iterator ends only after the reader returned Ok(0). \
 Non-trivial = the buffer rolled at least once (hook counter) and at least one match spans two reads. Distinct = distinct case fingerprint.",
     assumptions: &["the buffer-capacity hook only changes Buffer::new's capacity (capacity >= longest pattern + 1, the domain stated in the property)", "reference model"],
@@ -371,7 +389,7 @@ Non-trivial = the buffer rolled at least once (hook counter) and at least one ma
     cases_thorough: 3_000_000,
     strategy: c07_strategy,
     check: c07_check,
-    extra: None,
+    extra: Some(c07_extra),
     floors: &[
         ("buffer-rolled", 60_000),
         ("match-spans-two-reads", 40_000),
@@ -382,6 +400,144 @@ Non-trivial = the buffer rolled at least once (hook counter) and at least one ma
         ("rolled-at-default-capacity", 1_000),
     ],
 };
+
+
+// ------------------------------------------------------------------ long-pattern scenarios
+
+/// Deterministic scenarios around the default-capacity formula
+/// `max(8 * longest, 64 KiB)`: one pattern a^(L-1) b with L at the
+/// boundaries 8191/8192/8193 (8L crosses 64 KiB), 65535/65536/65537 and
+/// (thorough, or quick for the non-DFA engine) above 1 MiB, in a stream of
+/// 'c' filler where the occurrences straddle the capacity boundaries. The
+/// expected matches are known by construction.
+pub struct LongScenario {
+    pub case: Case,
+    pub expect: Vec<M>,
+}
+
+pub fn long_scenarios(tier: Tier) -> Vec<LongScenario> {
+    let mut out = Vec::new();
+    let mut lens: Vec<usize> = vec![8191, 8192, 8193, 65535, 65536, 65537];
+    lens.push((1 << 20) + 4097);
+    if tier == Tier::Thorough {
+        lens.push(2 * (1 << 20) + 17);
+    }
+    for (li, &l) in lens.iter().enumerate() {
+        let mut p = vec![b'a'; l - 1];
+        p.push(b'b');
+        let cap = std::cmp::max(8 * l, 65536);
+        // occurrences: one crossing the first capacity boundary, two adjacent
+        // ones later, one at the very end
+        let mut stream = vec![b'c'; cap - l / 2];
+        let mut expect = Vec::new();
+        let mut plant = |stream: &mut Vec<u8>| {
+            let st = stream.len();
+            stream.extend_from_slice(&p);
+            expect.push(M { pat: 0, start: st, end: st + l });
+        };
+        plant(&mut stream);
+        stream.extend(std::iter::repeat(b'c').take(l / 3 + 5));
+        plant(&mut stream);
+        plant(&mut stream);
+        stream.extend(std::iter::repeat(b'a').take(l - 1)); // a near miss
+        stream.push(b'c');
+        plant(&mut stream);
+        let engines: &[crate::case::Engine] = if l > 200_000 {
+            &[crate::case::Engine::TopNc]
+        } else {
+            &[crate::case::Engine::TopNc, crate::case::Engine::TopC, crate::case::Engine::TopDfa]
+        };
+        for (ei, &engine) in engines.iter().enumerate() {
+            let reads = match (li + ei) % 4 {
+                0 => vec![usize::MAX],
+                1 => vec![65536],
+                2 => vec![4096, 10000],
+                _ => vec![l / 3 + 1],
+            };
+            out.push(LongScenario {
+                case: Case {
+                    prop: "C07".into(),
+                    sub: format!("long-pattern:{}", l),
+                    cfg: crate::case::Cfg { engine, mk: Mk::Standard, sk: Sk::Unanchored, prefilter: ei % 2 == 0, dense_depth: 2, byte_classes: true, casei: false },
+                    patterns: vec![p.clone()],
+                    haystack: stream.clone(),
+                    span: (0, stream.len()),
+                    reads,
+                    spare: None,
+                    ..Case::default()
+                },
+                expect: expect.clone(),
+            });
+        }
+    }
+    out
+}
+
+fn run_long_scenarios(prop: &'static str, tier: Tier, ctx: &mut Ctx, with_faults: bool) -> Result<bool, crate::runner::Violation> {
+    let scenarios = long_scenarios(tier);
+    let results: Vec<Result<(), crate::runner::Violation>> = std::thread::scope(|sc| {
+        let hs: Vec<_> = scenarios
+            .iter()
+            .map(|scn| {
+                sc.spawn(move || -> Result<(), crate::runner::Violation> {
+                    let mut case = scn.case.clone();
+                    case.prop = prop.to_string();
+                    let fail = |reason: String| crate::runner::Violation {
+                        // the replay keeps the scenario parameters, not the multi-megabyte stream
+                        case: Case { haystack: Vec::new(), patterns: vec![], note: String::new(), params: vec![case.patterns[0].len() as i64], ..case.clone() },
+                        reason,
+                    };
+                    let s = Searcher::build(&case.cfg, &case.patterns).map_err(|e| fail(e))?;
+                    let run = run_stream_find(&s, &case, None).map_err(|e| fail(e))?;
+                    let got: Vec<M> = run.items.iter().filter_map(|r| r.as_ref().ok().copied()).collect();
+                    if run.items.iter().any(|r| r.is_err()) {
+                        return Err(fail("long-pattern scenario: the fault-free stream search yielded an I/O error".into()));
+                    }
+                    if got != scn.expect {
+                        return Err(fail(format!("long-pattern scenario (L = {}): expected {:?}, got {:?}", case.patterns[0].len(), scn.expect, got)));
+                    }
+                    if !run.eof_returned {
+                        return Err(fail(format!("long-pattern scenario (L = {}): the iterator ended before the reader reported end of stream", case.patterns[0].len())));
+                    }
+                    if with_faults {
+                        // a read failure late in the stream must surface
+                        for k in [run.read_calls, run.read_calls.saturating_sub(1).max(1), (run.read_calls / 2).max(1)] {
+                            let r = run_stream_find(&s, &case, Some(k)).map_err(|e| fail(e))?;
+                            if r.items.last() != Some(&Err(READ_FAULT)) {
+                                return Err(fail(format!("long-pattern scenario (L = {}): read fault at call {} of {} did not surface as the last item (items: {} matches, last {:?})", case.patterns[0].len(), k, run.read_calls, r.items.len(), r.items.last())));
+                            }
+                            let m: Vec<M> = r.items.iter().filter_map(|x| x.as_ref().ok().copied()).collect();
+                            if !is_prefix(&m, &scn.expect) {
+                                return Err(fail("long-pattern scenario: matches before the fault are not a prefix".into()));
+                            }
+                        }
+                    }
+                    Ok(())
+                })
+            })
+            .collect();
+        hs.into_iter().map(|h| h.join().expect("scenario thread")).collect()
+    });
+    for (scn, r) in scenarios.iter().zip(results) {
+        r?;
+        ctx.begin();
+        ctx.nontrivial();
+        ctx.class(&format!("scenario:{}", scn.case.sub));
+        // counted with a compact stand-in (the stream itself is megabytes long)
+        let stand_in = Case { haystack: Vec::new(), patterns: vec![], params: vec![scn.case.patterns[0].len() as i64], ..scn.case.clone() };
+        ctx.end(&stand_in);
+        ctx.enumerated += 1;
+    }
+    Ok(false)
+}
+
+fn c07_extra(tier: Tier, _seed: u64, ctx: &mut Ctx) -> Result<bool, crate::runner::Violation> {
+    run_long_scenarios("C07", tier, ctx, false)
+}
+
+fn c18_extra(tier: Tier, _seed: u64, ctx: &mut Ctx) -> Result<bool, crate::runner::Violation> {
+    run_long_scenarios("C18", tier, ctx, true)
+}
 
 // ------------------------------------------------------------------ C08
 
@@ -397,13 +553,17 @@ struct ReplaceRun {
 }
 
 fn run_replace(s: &Searcher, case: &Case, with_closure: bool, fault: &Option<Fault>, closure_fail_at: Option<usize>) -> Result<ReplaceRun, String> {
+    run_replace_kind(s, case, with_closure, fault, closure_fail_at, READ_FAULT)
+}
+
+fn run_replace_kind(s: &Searcher, case: &Case, with_closure: bool, fault: &Option<Fault>, closure_fail_at: Option<usize>, kind: io::ErrorKind) -> Result<ReplaceRun, String> {
     let cuts = cuts_of(case);
     let _g = SpareGuard::set(case.spare);
     let read_fail = match fault {
         Some(Fault::Read { k }) => Some(*k),
         _ => None,
     };
-    let mut rdr = SchedReader::new(&case.haystack, &case.reads, &cuts, read_fail);
+    let mut rdr = SchedReader::new(&case.haystack, &case.reads, &cuts, read_fail).with_kind(kind);
     let mut wtr = SchedWriter::new(case.write_chunk, fault);
     let mut seen: Vec<(M, Vec<u8>)> = Vec::new();
     let repl = &case.repl;
@@ -578,16 +738,23 @@ fn c18_check(case: &Case, ctx: &mut Ctx) -> Result<(), String> {
         None => (1..=r_calls).collect(),
     };
     for &k in &read_ks {
-        let run = run_stream_find(&s, case, Some(k))?;
+        // the kind of the injected error varies with the fault position
+        let kind = READ_KINDS[k % READ_KINDS.len()];
+        let run = run_stream_find_kind(&s, case, Some(k), kind)?;
         faults += 1;
         let got: Vec<M> = run.items.iter().filter_map(|r| r.as_ref().ok().copied()).collect();
         let errs: Vec<&Result<M, io::ErrorKind>> = run.items.iter().filter(|r| r.is_err()).collect();
-        if k <= r_calls {
+        // `Interrupted` conventionally means "retry": an implementation may
+        // either report it or retry the read; in the latter case the whole
+        // fault-free result must come out. Anything else (e.g. treating it as
+        // end of stream) loses data silently.
+        let retried = kind == io::ErrorKind::Interrupted && errs.is_empty() && got == free_matches && run.eof_returned;
+        if k <= r_calls && !retried {
             if errs.len() != 1 || !matches!(run.items.last(), Some(Err(_))) {
-                return Err(format!("read fault at call {}: expected exactly one trailing error item, got items {:?} (reader eof returned: {})", k, run.items, run.eof_returned));
+                return Err(format!("read fault ({:?}) at call {}: expected exactly one trailing error item, got items {:?} (reader eof returned: {})", kind, k, run.items, run.eof_returned));
             }
-            if run.items.last() != Some(&Err(READ_FAULT)) {
-                return Err(format!("read fault at call {}: error kind {:?} is not the injected one", k, run.items.last()));
+            if run.items.last() != Some(&Err(kind)) {
+                return Err(format!("read fault ({:?}) at call {}: error kind {:?} is not the injected one", kind, k, run.items.last()));
             }
         }
         if !is_prefix(&got, &free_matches) {
@@ -606,11 +773,14 @@ fn c18_check(case: &Case, ctx: &mut Ctx) -> Result<(), String> {
     // ---- read faults on replacement
     for &k in &read_ks {
         for with_closure in [false, true] {
-            let run = run_replace(&s, case, with_closure, &Some(Fault::Read { k }), None)?;
+            let kind = READ_KINDS[(k + 1) % READ_KINDS.len()];
+            let run = run_replace_kind(&s, case, with_closure, &Some(Fault::Read { k }), None, kind)?;
             faults += 1;
+            let retried = kind == io::ErrorKind::Interrupted && run.result.is_ok() && run.out == free_out;
             match run.result {
-                Err(kind) if kind == READ_FAULT => {}
-                other => return Err(format!("replacement with read fault at call {}: expected Err({:?}), got {:?}", k, READ_FAULT, other)),
+                Err(got) if got == kind => {}
+                _ if retried => {}
+                other => return Err(format!("replacement with read fault ({:?}) at call {}: expected Err({:?}), got {:?} with {} of {} output bytes", kind, k, kind, other, run.out.len(), free_out.len())),
             }
             if !is_prefix(&run.out, &free_out) {
                 return Err(format!("replacement with read fault at call {}: bytes written are not a prefix of the fault-free output", k));
@@ -733,15 +903,15 @@ fn c18_strategy(_tier: Tier) -> BoxedStrategy<Case> {
 pub const C18: PropDef = PropDef {
     id: "C18",
     rule: "C07/C08 generators with shorter streams; for each generated (stream, read schedule, buffer spare, replacement table, writer chunking) the fault-free run is executed first to learn the number of read calls R and write calls W and the output length, \
-then EVERY fault position is injected: read failure at call k for k in 1..=R (match iterator, table replacement, closure replacement), write failure at call k in 1..=W, a writer that accepts exactly n bytes then fails for every n (all n if output <= 96 bytes, else first/last 32 and every 7th), and the closure failing at match j. \
+then EVERY fault position is injected: read failure at call k for k in 1..=R (match iterator, table replacement, closure replacement; the error kind cycles through ConnectionReset / Interrupted / UnexpectedEof / WouldBlock / Other with k; for Interrupted either reporting it or retrying with the complete fault-free result is accepted), write failure at call k in 1..=W, a writer that accepts exactly n bytes then fails for every n (all n if output <= 96 bytes, else first/last 32 and every 7th), and the closure failing at match j. \
 Oracle: nothing panics; the injected error kind surfaces (one trailing Some(Err) item, resp. the returned Err); matches before it are a prefix of the fault-free sequence; bytes written are a prefix of the fault-free output (exactly the first n for the byte-limited writer); the iterator never ends before the reader returned Ok(0). \
-evaluations counts generated cases; the counter faults_injected counts fault runs. \
+The long-pattern scenarios of C07 (L up to 1 MiB + 4097 at the default capacity) are re-run with a read failure at the last, second-to-last and middle read call. evaluations counts generated cases; the counter faults_injected counts fault runs. \
 Non-trivial = at least one fault was injected after a buffer roll, or between the two reads that a match spans. Distinct = distinct case fingerprint.",
     assumptions: &["faults are injected at call granularity (and byte granularity for writes); a failing reader is not called again", "buffer-capacity hook as in C07"],
     cases_quick: 120_000,
     cases_thorough: 2_000_000,
     strategy: c18_strategy,
     check: c18_check,
-    extra: None,
+    extra: Some(c18_extra),
     floors: &[("fault-after-roll", 40_000), ("fault-between-reads-of-a-match", 20_000)],
 };
